@@ -329,10 +329,7 @@ def keyed_constructions(prog, funcs):
                         out[el.elts[0].value] = (ci, None, el.elts[1])
             if isinstance(v, ast.Dict) and v.keys and all(isinstance(k, ast.Constant) and isinstance(k.value, str) for k in v.keys):
                 for k, val in zip(v.keys, v.values):
-                    e = val.func if isinstance(val, ast.Call) else val
-                    if isinstance(e, ast.Attribute) and e.attr == "from_properties":
-                        e = e.value
-                    ci = prog.resolve_class(m, e) if isinstance(e, (ast.Name, ast.Attribute)) else None
+                    ci = entry_class(m, val)
                     if ci is not None and k.value not in out:
                         out[k.value] = (ci, None, val)
     return out
